@@ -240,6 +240,13 @@ def explore(job: dict) -> dict:
         )
         if only:
             op = op.filter(lambda o: o[0] in only)
+        if job.get("focus") == "replies":  # a shallow log, lost announcements and single-entry replies for nearby positions
+            initial = draw(st.integers(4, 14))
+            op = st.one_of(st.tuples(st.just("new"), st.sampled_from(("fault", "restore")), st.sampled_from((False, False, True))),
+                           st.tuples(st.just("reply"), st.integers(0, 10)), st.tuples(st.just("reply"), st.integers(0, 10)),
+                           st.tuples(st.just("reply"), st.integers(0, 16)))
+            ops = draw(st.lists(op, min_size=3, max_size=16))
+            return {"initial": initial, "presync": draw(st.integers(0, 3)) == 0, "ops": [list(o) for o in ops]}
         ops = draw(st.lists(op, min_size=1, max_size=40))
         return {"initial": initial, "presync": draw(st.booleans()), "ops": [list(o) for o in ops]}
 
@@ -247,9 +254,9 @@ def explore(job: dict) -> dict:
         res = run_history(hist)
         nl = sum(1 for o in hist["ops"] if o[0] == "new" and not o[2])
         col.case(nt=jdump(hist) if nontrivial(hist) else None,
-                 classes=["hist", f"depth:{'0' if hist['initial'] == 0 else '1-5' if hist['initial'] < 6 else '6-63' if hist['initial'] < 64 else '64+'}",
+                 classes=["hist" if not job.get("focus") else "hist-focus", f"depth:{'0' if hist['initial'] == 0 else '1-5' if hist['initial'] < 6 else '6-63' if hist['initial'] < 64 else '64+'}",
                           "lost-announcement" if nl else "no-loss", "has-read-through" if any(o[0] == "read" for o in hist["ops"]) else "no-read-through",
-                          "alphabet:" + ("+".join(only) if only else "all")],
+                          "alphabet:" + ("+".join(only) if only else job.get("focus") or "all")],
                  sample={"initial": hist["initial"], "presync": hist["presync"], "ops": hist["ops"][:10]})
         for sig, detail in res:
             col.violation(dict(sig, alphabet="+".join(only) if only else "all"), hist, detail)
@@ -425,6 +432,7 @@ def run(ctx: Ctx, col: Collector) -> None:
     ]
     ctx.parallel(explore, ctx.shards(ctx.n(5_000, 250_000)), col)
     ctx.parallel(explore, ctx.shards(ctx.n(3_000, 100_000), ops=("new", "read", "views")), col)
+    ctx.parallel(explore, ctx.shards(ctx.n(12_000, 300_000), focus="replies"), col)
     ctx.parallel(explore_stack, ctx.shards(ctx.n(320, 10_000), per_shard_min=5), col)
     ctx.floors = [("lost-announcement", "hist", 0.3), ("has-read-through", "hist", 0.3), ("depth:64+", "hist", 0.05), ("stack:has-read", "stack", 0.5)]
 
